@@ -204,7 +204,7 @@ Proof.
     destruct (do_add_out_rrs _ _ _ _ _ A) as [R C]. rewrite R.
     eapply mutex_on_frames; [| |exact Inv]; intros r'; cnt; rewrite C by reflexivity; lia.
   - inversion H; subst; clear H. simpl. plain_leaf Inv.
-  - inversion H; subst; clear H. simpl. plain_leaf Inv.
+  - destruct (n_hrel (getN s res)); [discriminate|]. inversion H; subst; clear H. simpl. plain_leaf Inv.
   - destruct (do_add_out s res c) as [[s2 sp2]|] eqn:A; [|discriminate]. inversion H; subst; clear H.
     destruct (do_add_out_rrs _ _ _ _ _ A) as [R C]. rewrite R.
     eapply mutex_on_frames; [| |exact Inv]; intros r'; cnt; rewrite C by reflexivity; lia.
